@@ -161,40 +161,80 @@ def run_chain(req):
 
 
 def run_other_thread(req):
-    """A greenlet that is running in another thread: an error, and no frames of any other stack."""
+    """Greenlets that live in ANOTHER thread, in every state: that thread's main greenlet while it runs plain code
+    (running there -> error, no frames), a child greenlet running there (error, no frames) while the main one is
+    suspended (exactly its frames), and a child suspended there (exactly its frames)."""
     obs = []
-    ready, go = threading.Event(), threading.Event()
-    box = {}
+    ev = {k: threading.Event() for k in ("p1", "go2", "p2", "go3", "p3", "end")}
+    box = {"main_frames": [], "child_frames": []}
+
+    def child_body():
+        box["child_frames"].append(sys._getframe())
+        ev["p2"].set()
+        ev["go3"].wait(30)          # phase 2: the child is RUNNING in this thread
+        box["main"].switch()        # phase 3: the child is suspended, the main greenlet runs again
+
+    def level2():
+        box["main_frames"].append(sys._getframe())
+        ev["p1"].set()
+        ev["go2"].wait(30)          # phase 1: plain code in the thread's main greenlet
+        box["child"] = greenlet.greenlet(child_body)
+        box["child"].switch()       # phase 2 starts inside
+        ev["p3"].set()
+        ev["end"].wait(30)
 
     def tmain():
-        def gbody():
-            box["g"] = greenlet.getcurrent()
-            ready.set()
-            go.wait(20)
-        g = greenlet.greenlet(gbody)
-        g.switch()
+        box["main"] = greenlet.getcurrent()
+        box["main_frames"].append(sys._getframe())
+        level2()
 
     t = threading.Thread(target=tmain, daemon=True)
     t.start()
-    if not ready.wait(10):
-        return {"harness_error": "thread did not start"}
-    try:
+
+    def look(glet, tag, want_frames):
         with warnings.catch_warnings(record=True):
             warnings.simplefilter("always")
             try:
-                st = extract(box["g"], with_contexts=False)
+                st = extract(glet, with_contexts=False)
             except BaseException as ex:
-                obs.append({"kind": "raised", "exc": repr(ex)})
-                st = None
-        if st is not None:
+                obs.append({"kind": "raised", "tag": tag, "exc": repr(ex)})
+                return
+        got = [f.pyframe for f in st.frames]
+        if want_frames is None:
             if st.error is None:
-                obs.append({"kind": "other_thread_no_error", "frames": [f.funcname for f in st.frames]})
+                obs.append({"kind": "other_thread_running_no_error", "tag": tag, "frames": [f.funcname for f in st.frames]})
             if st.frames:
-                obs.append({"kind": "other_thread_frames_reported", "frames": [f.funcname for f in st.frames]})
+                obs.append({"kind": "other_thread_running_frames_reported", "tag": tag,
+                            "frames": [f.funcname for f in st.frames]})
+        else:
+            mine = [f for f in got if f.f_code.co_filename == HERE]
+            if mine != want_frames or st.error is not None:
+                obs.append({"kind": "other_thread_suspended_frames", "tag": tag, "got": [f.f_code.co_name for f in mine],
+                            "exp": [f.f_code.co_name for f in want_frames], "error": repr(st.error)})
+
+    n = 0
+    try:
+        if not ev["p1"].wait(10):
+            return {"harness_error": "thread did not reach phase 1"}
+        look(box["main"], "main greenlet of another thread, running plain code", None)
+        n += 1
+        ev["go2"].set()
+        if not ev["p2"].wait(10):
+            return {"harness_error": "thread did not reach phase 2"}
+        look(box["child"], "child greenlet running in another thread", None)
+        look(box["main"], "main greenlet of another thread, suspended", list(box["main_frames"]))
+        n += 2
+        ev["go3"].set()
+        if not ev["p3"].wait(10):
+            return {"harness_error": "thread did not reach phase 3"}
+        look(box["child"], "child greenlet suspended in another thread", list(box["child_frames"]))
+        look(box["main"], "main greenlet of another thread, running again", None)
+        n += 2
     finally:
-        go.set()
+        for e in ev.values():
+            e.set()
         t.join(10)
-    return {"obs": obs, "stats": {"observations": 1, "glets": 1, "from_descendant": 0}}
+    return {"obs": obs[:6], "stats": {"observations": n, "glets": 2, "from_descendant": 0}}
 
 
 # ------------------------------------------------------------------------------------ greenback bridges
